@@ -348,9 +348,17 @@ package ledger
 //@ ghost published int
 //@ ghost nCtrlCommit int
 
+//@ ghost lastCommitCtrl Controller
+//@ ghost lastLockedCtrl Controller
+
 //@ assumed func (c Controller) Commit(ctx context.Context) (err error)
-//@   modifies nCtrlCommit
-//@   ensures nCtrlCommit == old(nCtrlCommit) + (err == nil ? 1 : 0)
+//@   modifies nCtrlCommit, lastCommitCtrl
+//@   ensures nCtrlCommit == old(nCtrlCommit) + (err == nil ? 1 : 0) && lastCommitCtrl == c
+
+//@ assumed func (c Controller) LockLedger(ctx context.Context) (r Controller, db bun.IDB, release func() error, err error)
+//@   modifies lastLockedCtrl
+//@   ensures err == nil ==> r != nil && lastLockedCtrl == r
+//@   ensures err != nil ==> lastLockedCtrl == old(lastLockedCtrl)
 
 //@ func (c *ControllerWithEvents) handleEvent(ctx context.Context, fn func())
 //@   property C31
@@ -420,13 +428,14 @@ package ledger
 
 //@ func (c *ControllerWithEvents) LockLedger(ctx context.Context) (r Controller, db bun.IDB, release func() error, err error)
 //@   property C31
+//@   modifies lastLockedCtrl
 //@   ensures published == old(published)
 //@   ensures err == nil ==> r.(*ControllerWithEvents) != nil && r.(*ControllerWithEvents).hasTx == c.hasTx && len(r.(*ControllerWithEvents).atCommit) == 0
 //@   note LockLedger on a handle inside a transaction stays inside that transaction (storage/ledger/store.go LockLedger, case bun.Tx): the result must inherit hasTx
 
 //@ func (c *ControllerWithEvents) Commit(ctx context.Context) (err error)
 //@   property C07 C31
-//@   modifies published, nCtrlCommit
+//@   modifies published, nCtrlCommit, lastCommitCtrl
 //@   ensures (err == nil) == (nCtrlCommit == old(nCtrlCommit) + 1) && (err != nil) == (nCtrlCommit == old(nCtrlCommit))
 //@   ensures err != nil ==> published == old(published)
 //@   ensures err == nil ==> published == old(published) + len(c.atCommit)
